@@ -15,6 +15,7 @@ import (
 
 	"verif/harness/core"
 	"verif/harness/env"
+	"verif/harness/spsim"
 )
 
 // C19 — issuer validation and derivation.
@@ -185,9 +186,19 @@ func c19Concurrent(r *core.Run, idx int, rng *rand.Rand) {
 		wantPath = "/" + wantPath
 	}
 	o := env.Opts{HostPath: path, Insecure: insecure, UseFwd: fwd}
+	if idx%4 >= 2 {
+		// signed metadata: a document stays in the making for the length of a key lookup and a signature
+		o.MetaSigAlg = spsim.AlgRSASHA256
+	}
 	e, err := env.New(o)
 	if err != nil {
 		panic(err)
+	}
+	e.W.NoLog = true
+	e.W.Delay = func(op string) {
+		if op == "GetMetadataSigningKey" {
+			time.Sleep(2 * time.Millisecond)
+		}
 	}
 	var wg sync.WaitGroup
 	var mu sync.Mutex
@@ -227,6 +238,19 @@ func c19Concurrent(r *core.Run, idx int, rng *rand.Rand) {
 						}
 						mu.Unlock()
 						return
+					}
+					// every location of the document is below the issuer of its own host
+					if mv.Err == "" {
+						for _, ep := range append(append(append([]endpoint{}, mv.SSO...), mv.SLO...), mv.Attr...) {
+							if !strings.HasPrefix(foldHost(ep.Location), foldHost(strings.TrimSuffix(want, "/")+"/")) {
+								mu.Lock()
+								if firstBad == "" {
+									firstBad = fmt.Sprintf("the metadata served for host %s advertises the location %q, which is not below its issuer %q (other hosts were served meanwhile)", host, ep.Location, want)
+								}
+								mu.Unlock()
+								return
+							}
+						}
 					}
 				}
 			}
